@@ -46,7 +46,7 @@ def main():
     if dump:
         k = 0
         for d in results:
-            if dump in d["oid"] and d["verdict"] != "discharged":
+            if dump in d["oid"] and (d["verdict"] != "discharged" or d.get("z3") != "unsat"):
                 k += 1
                 open(f"/tmp/scratch/dump{k}.smt2", "w").write(d["smt2"])
                 print("dumped", d["oid"], f"/tmp/scratch/dump{k}.smt2")
